@@ -618,7 +618,36 @@ func ruleStreamRegistered(c *Ctx) {
 				}
 			}
 			if nStream == 0 {
-				c.und(base+"/registered-before-read", reg.Pos(), "no read of the registered handle found")
+				// an opener helper: the handle is handed to the caller, registered, on every path that returns it
+				returned, early := 0, false
+				for _, r := range fg.Returns() {
+					rs := r.Node.(*ast.ReturnStmt)
+					hasF := false
+					for _, res := range rs.Results {
+						if id, ok := ast.Unparen(res).(*ast.Ident); ok && info.ObjectOf(id) == o.f {
+							hasF = true
+						}
+					}
+					if !hasF {
+						continue
+					}
+					returned++
+					rr := r
+					if e, _ := fg.Reach(PathQuery{From: ol,
+						Target: func(l Loc) bool { return l.Block == rr.Block && l.Idx == rr.Idx },
+						Avoid:  func(l Loc) bool { return l.Block == rl.Block && l.Idx == rl.Idx },
+						EdgeOK: errNilOnly}); e {
+						early = true
+					}
+				}
+				switch {
+				case returned == 0:
+					c.und(base+"/registered-before-read", reg.Pos(), "the registered handle is neither read nor returned")
+				case early:
+					c.bad(base+"/registered-before-read", reg.Pos(), "the handle can be returned to the caller without having been registered in aofconnM: the caller streams a log that AOFSHRINK cannot close")
+				default:
+					c.ok(base+"/registered-before-read", reg.Pos(), true, "the handle is returned to the caller only after it was registered (%d return(s))", returned)
+				}
 			} else if okDom {
 				c.ok(base+"/registered-before-read", reg.Pos(), true, "the registration dominates all %d reads of the handle", nStream)
 			} else {
